@@ -92,6 +92,8 @@ def builtin(it, name):
         return len(x)
 
     def b_int(x=0, *a):
+        if hasattr(x, "abs_int"):
+            return x.abs_int()
         if isinstance(x, str):
             return int(x, *a)
         if num(x):
@@ -147,6 +149,8 @@ def builtin(it, name):
         return False
 
     def b_round(x, nd=None):
+        if hasattr(x, "abs_round"):
+            return x.abs_round(nd)
         if num(x) and nd is None:
             return round(x)
         if num(x):
@@ -166,8 +170,16 @@ def builtin(it, name):
     def b_minmax(which):
         def f(*a, **kw):
             xs = list(it.iterate(a[0])) if len(a) == 1 else list(a)
-            if "key" in kw:
-                raise Undecided("min/max with key")
+            if kw.get("key") is not None:
+                keys = [it.call(kw["key"], [x], {}) for x in xs]
+                if not xs:
+                    if "default" in kw:
+                        return kw["default"]
+                    raise Raised("ValueError", "empty sequence")
+                if all(num(k) or isinstance(k, (str, tuple)) for k in keys):
+                    pick = (min if which == "min" else max)(range(len(xs)), key=lambda i: keys[i])
+                    return xs[pick]
+                raise Undecided("min/max with abstract keys")
             if not xs:
                 if "default" in kw:
                     return kw["default"]
